@@ -67,6 +67,7 @@ var devIDs = map[byte]string{
 }
 
 const (
+	idSelfSet  = "C20-set-self-containing"
 	idCyclic   = "C20-cyclic-data"
 	idMapOrder = "C20-map-order"
 	idSenText  = "C20-print-sen-text"
@@ -401,6 +402,7 @@ func boundaryCases() []kase {
 		mk("cyclic-eq", []any{"set", "$.asm", map[string]any{}}, []any{"set", "$.asm.a", "$.asm"}, []any{"set", "$.x", []any{"eq", "$.asm", "$.asm"}}),
 		mk("cyclic-root", []any{"set", "$.asm", "$"}, []any{"set", "$.y", []any{"neq", "$", "$.asm"}}),
 		mk("cyclic-only", []any{"set", "$.asm", "$"}),
+
 		mk("map-order", "set", "$.asm", []any{"getall", "$.src.m.*"}),
 		mk("map-order-first", "set", "$.asm", []any{"get", "$.src.m.*"}),
 		mk("print-plus", "set", "$.asm", []any{"+", int64(3), int64(4)}),
@@ -415,6 +417,10 @@ func boundaryCases() []kase {
 		mk("root-at", []any{"set", "$.asm", []any{"get", []any{"root", "src", "l[1]"}}}, []any{"set", "$.p", []any{"at", "x"}}),
 	}
 	out = append(out, kase{stream: "boundary.nil-plan", plan: "[]", root: root, alias: true})
+	if *tier == "thorough" { // costs the watchdog's 20 s of one worker: not in the quick tier
+		out = append(out, kase{stream: "boundary.set-descent-self", root: root,
+			plan: render([]any{[]any{"setall", "$..a", map[string]any{}}, []any{"setall", "$..a", map[string]any{}}})})
+	}
 	return out
 }
 
@@ -526,7 +532,11 @@ func judge(d *lib.Driver, k *kase, w WOut, v verdicts) {
 	// (a) the worker died or hung
 	if w.Crash != "" {
 		overflow := strings.Contains(w.Crash, "stack overflow") || strings.Contains(w.Crash, "goroutine stack exceeds")
+		oom := strings.Contains(w.Crash, "out of memory") || strings.Contains(w.Crash, "cannot allocate memory")
 		switch {
+		case (w.Crash == "timeout" || oom) && descentSetOfContainer(mustTree(k.plan)):
+			nontrivial = 1
+			addKnown(k, idSelfSet, "hang:set-self-containing", "set/setall with a recursive descent in the path and a container value: jp.Set stores the value by reference and the descent walks into what it has just stored (C13-set-self-containing): the call does not end (memory grows until the watchdog or the address-space limit stops the worker)")
 		case w.Crash == "timeout":
 			violation(k, "timeout:"+base, "the implementation did not finish within the watchdog time", nil)
 		case overflow && hasStop(v.cur, "diverge"):
@@ -650,6 +660,40 @@ func show2(run string) string {
 		return run
 	}
 	return p[0] + " " + show(p[1])
+}
+
+// descentSetOfContainer: the plan calls set/setall with a path text that holds a recursive descent (`..`) and
+// a value that is not a scalar literal (a list or map literal, a path, a call).
+func descentSetOfContainer(v any) bool {
+	switch t := v.(type) {
+	case []any:
+		if len(t) == 3 {
+			if f, ok := t[0].(string); ok && (f == "set" || f == "setall") {
+				if p, ok := t[1].(string); ok && strings.Contains(p, "..") {
+					switch val := t[2].(type) {
+					case []any, map[string]any:
+						return true
+					case string:
+						if len(val) > 0 && (val[0] == '$' || val[0] == '@') {
+							return true
+						}
+					}
+				}
+			}
+		}
+		for _, x := range t {
+			if descentSetOfContainer(x) {
+				return true
+			}
+		}
+	case map[string]any:
+		for _, x := range t {
+			if descentSetOfContainer(x) {
+				return true
+			}
+		}
+	}
+	return false
 }
 
 func sameRuns(ans string) bool {
